@@ -125,3 +125,10 @@ CHECKS["C08"] = dict(
     note="'No response' (packing refused, EMSGSIZE, DoQ keep-alive refusal) is bucketed, never judged. Plain-HTTP DoH counts as DoH for the padding rule. Requests <= 512 bytes.",
     ref="2/C08",
 )
+CHECKS["C20"] = dict(
+    level="exploration",
+    technique="runtime monitoring of the real binary: YAML-tree mutations of the distributed example configuration (every numeric/duration/size/enum/cross-reference field x {0,-1,1,bound+-1,large,missing} + documented cross-field constraints + seeded pairs) started as child processes in a hermetic environment (stub upstreams, gRPC backend, Redis, HTTP lists, certificates) and exercised with a traffic script over all six transports",
+    text="718 configurations per quick run: each is either rejected (non-zero exit, a configuration error that names the offending property, no runtime error) or accepted and then must serve the traffic script without panic / recovered panic / total silence and shut down cleanly; every violation is confirmed by a second execution.",
+    note="Rate limiting by design is not a violation (only the first query of a fresh limited client is required when a rate parameter is mutated); 1 ns / 1 B values are legal positives; interface listeners are omitted from the base configuration. Five parse-level findings (negative sizes rejected without naming the key) are recorded in known_findings.json.",
+    ref="2/C20",
+)
